@@ -4,7 +4,9 @@ theorems : lean/GoldModel/Props/C06.lean — ladder_spec (the operator ladder re
            body_parser.rs equals the property's ladder and is the one the model uses),
            foldBin_left_assoc (every level associates to the left, unboundedly),
            operator_pairs (all 23 x 23 operator pairs, kernel-evaluated on the model:
-           `a op1 b op2 c` binds by precedence and associates to the left), range lemmas.
+           `a op1 b op2 c` binds by precedence and associates to the left), range lemmas;
+           lean/GoldModel/Props/C06Expr.lean — expr_roundtrip / level_roundtrip / expr_roundtrip_memo: parse_expr (print e ++ k)
+           = (tree e, k, no diagnostics) for every well-formed expression e of the full expression grammar (unbounded).
 tie      : E5 (operator ladder) regenerated from the source; `parse` correspondence.
 oracle   : grammar-directed generator that emits text + expected tree (vlib/gen/wf.py):
            parse_gold(lex(text)) must have zero diagnostics and the expected shape; every
@@ -70,8 +72,10 @@ def run(ctx):
         "the generator vlib/gen/wf.py IS the statement of 'the tree the grammar prescribes' for the oracle (a second, independent description of the grammar)",
     ]
     ctx.assumptions += [
-        "PARTIAL: the general round-trip theorem parse(print p) = expected p is not proved; proved are the ladder, left-association of the fold, and the "
-        "complete finite table of operator pairs on the model; everything else is established by the generator oracle on the implementation",
+        "PARTIAL: the round-trip theorem parse(print p) = expected p is proved for EXPRESSIONS (Props/C06Expr: the full grammar of parse_expr — atoms, "
+        "parentheses, 23 binary operators, prefix/postfix operators, member-access chains with calls and indexing, set literals; no comments between the "
+        "tokens), not for statements and declarations; also proved are the ladder, left-association of the fold, and the complete finite table of "
+        "operator pairs on the model; everything else is established by the generator oracle on the implementation",
     ]
     if ctx.replay:
         return replay(ctx)
@@ -166,28 +170,33 @@ def dump_node(n):
     return "(%s %s %d:%d-%d:%d%s)" % ((n.kind, core.esc(n.ident)) + tuple(n.rng) + ("".join(" " + dump_node(k) for k in n.kids),))
 
 
+# constructors of `Ex` / `Args` (call0 / set0 = empty list, 1 = one item, 2 = two or more: `Args.nil`, `.one`, `.more`)
+EX_CONSTRUCTORS = ["atom", "paren", "bin", "pre", "post", "dot", "call0", "call1", "call2", "index", "set0", "set1", "set2"]
+
+
 def expr_spec(ctx, n, depth):
     """tie of the SPEC side of `expr_roundtrip` (Ex.toks / Ex.tree / Ex.wfb, Lean) to the implementation: random abstract
     expressions are printed, lexed and parsed by the real code; the Lean spec, given the real tokens, must say `well formed`
     and its `Ex.tree` must be the subtree the implementation built for the right-hand side (kinds, names, ranges)"""
     cases = []
+    used = {}
     for i in range(n):
-        words, prefix = exspec.case(ctx.rng, 1 + ctx.rng.below(depth))
+        words, prefix, cons = exspec.case(ctx.rng, 1 + ctx.rng.below(depth))
         sep = [ctx.rng.choice([" ", " ", "  ", " \n  "]) for _ in words]
         text = "proc P\n x = " + "".join(w + s for w, s in zip(words, sep)) + "\nendproc\n"
-        cases.append((text, words, prefix))
+        cases.append((text, words, prefix, cons))
         ctx.count("expr-spec")
     lines = parsecases.texts_to_lines(ctx, [c[0] for c in cases])
     impl = ctx.run_harness("parse", lines, timeout=1200)
     spec_lines = []
-    for (text, words, prefix), line in zip(cases, lines):
+    for (text, words, prefix, cons), line in zip(cases, lines):
         toks = line.split(" ")[1:]
         # proc P x = <expr words> endproc
         ex = toks[4:4 + len(words)]
         spec_lines.append("exspec 8 " + " ".join(ex[int(w[1:])] if w.startswith("#") and int(w[1:]) < len(ex) else w for w in prefix))
     spec = ctx.run_driver(spec_lines, timeout=1200)
     ok, bad = 0, []
-    for (text, words, prefix), line, a, sp in zip(cases, lines, impl, spec):
+    for (text, words, prefix, cons), line, a, sp in zip(cases, lines, impl, spec):
         case = {"mode": "text", "text": text, "case": line}
         t, d = sexp.field(a, "T"), sexp.field(a, "D")
         toks = line.split(" ")[1:]
@@ -213,6 +222,13 @@ def expr_spec(ctx, n, depth):
                             dict(case, got=got[:600], want=want[:600]))
             continue
         ok += 1
+        for c in cons:
+            used[c] = used.get(c, 0) + 1
+    for c, m in sorted(used.items()):
+        ctx.count("expr-spec:" + c, m)
+    missing = [c for c in EX_CONSTRUCTORS if not used.get(c)]
+    ctx.oblige("tie:exspec-covers-every-constructor", not missing, "never exercised: %s" % missing)
+    ctx.log("exspec: constructors exercised (cases): %s" % " ".join("%s=%d" % kv for kv in sorted(used.items())))
     ctx.oblige("tie:exspec", not bad, "%d cases, first: %s" % (len(bad), bad[0] if bad else ""))
     ctx.log("exspec: %d expressions, implementation tree == Ex.tree (ranges included)" % ok)
 
